@@ -118,9 +118,34 @@ def _tlc_jobs(chk):
 
 
 # ---- run --------------------------------------------------------------------------------------------------------------
+def _worker_init():
+    """diagnostics only: say why a worker goes away (a dead worker would leave the pool waiting for ever)"""
+    import atexit
+    import faulthandler
+    import signal
+    import sys
+    faulthandler.enable()
+    log = os.environ.get("C09_WORKER_LOG")
+    if not log:
+        return
+
+    def note(msg):
+        with open(log, "a") as f:
+            f.write("%d %s %s\n" % (os.getpid(), time.strftime("%H:%M:%S"), msg))
+
+    def on(sig, frm):
+        note("signal %d" % sig)
+        signal.signal(sig, signal.SIG_DFL)
+        os.kill(os.getpid(), sig)
+    for sg in (signal.SIGTERM, signal.SIGHUP, signal.SIGINT, signal.SIGQUIT, signal.SIGUSR1, signal.SIGUSR2, signal.SIGPIPE):
+        signal.signal(sg, on)
+    atexit.register(lambda: note("atexit"))
+    note("start")
+
+
 def run(chk):
     ctx = mp.get_context("fork")
-    pool = ctx.Pool(W)                     # before any thread is started and before the tables are in memory
+    pool = ctx.Pool(W, initializer=_worker_init)   # before any thread is started and before the tables are in memory
     try:
         _run(chk, pool)
     finally:
